@@ -71,10 +71,15 @@ impl Row {
         // (dotted key, value, is_string)
         let port = 20000 + rng.below(20000);
         let cap = rng.range(10, 5000);
-        vec![
+        // the unsafe snapshot value is also delivered under the legacy key name (accepted as an alias);
+        // only where every route must reject the row anyway, so route-consistency stays meaningful
+        let legacy_snapshot_key = self.snap == 0 && self.env.trim().to_ascii_lowercase() != "benchmark" && rng.chance(0.5);
+        // "whatever the remaining settings are": a separate HTTP bind host in half of the rows
+        let http_host: Option<&'static str> = if rng.chance(0.5) { Some(HOSTS[rng.usize_below(HOSTS.len())]) } else { None };
+        let mut v = vec![
             ("environment.type", self.env.to_string(), true),
             ("persistence.fsync_policy", self.fsync.to_string(), true),
-            ("persistence.snapshot_interval_mutations", self.snap.to_string(), false),
+            (if legacy_snapshot_key { "persistence.snapshot_interval_inserts" } else { "persistence.snapshot_interval_mutations" }, self.snap.to_string(), false),
             ("persistence.recovery_mode", self.recov.to_string(), true),
             ("persistence.allow_fresh_start_on_recovery_failure", self.fresh.to_string(), false),
             ("persistence.data_dir", data_dir.to_string(), true),
@@ -92,7 +97,11 @@ impl Row {
             ("server.tls.cert_path", "/nonexistent/server.crt".to_string(), true),
             ("server.tls.key_path", "/nonexistent/server.key".to_string(), true),
             ("hnsw.dimension", rng.range(2, 64).to_string(), false),
-        ]
+        ];
+        if let Some(h) = http_host {
+            v.push(("server.http_host", h.to_string(), true));
+        }
+        v
     }
 }
 
@@ -175,7 +184,8 @@ fn unsafe_clauses(c: &KyroDbConfig) -> Vec<&'static str> {
     if matches!(c.persistence.fsync_policy, FsyncPolicy::None) {
         v.push("fsync disabled outside benchmark");
     }
-    if c.persistence.snapshot_interval_mutations == 0 {
+    // the effective value is what the server reads (accessor), not only the raw field
+    if c.persistence.snapshot_interval_mutations == 0 || c.snapshot_interval_mutations() == 0 {
         v.push("snapshots disabled outside benchmark");
     }
     if !matches!(c.persistence.recovery_mode, RecoveryMode::Strict) {
